@@ -18,3 +18,9 @@ func Bubble(t *testing.T, f func()) {
 
 // Quiesce in real time is a short pause (used only by safety-only oracles).
 func Quiesce() { time.Sleep(2 * time.Millisecond) }
+
+// Tick is a no-op without virtual time.
+func Tick() {}
+
+// OnBusy is only used by the virtual-time build.
+var OnBusy func(fn, frame, dump string)
